@@ -2,7 +2,6 @@
 package main
 
 import (
-	"bytes"
 	"context"
 	"fmt"
 	"strings"
@@ -16,41 +15,6 @@ import (
 	"verifharness/lib/vh"
 	"verifharness/lib/wire"
 )
-
-func sanitize(kind kit.Kind, b []byte) []byte {
-	if kind != kit.Stdio {
-		return b
-	}
-	b = bytes.ReplaceAll(b, []byte("\n"), []byte(" "))
-	return bytes.ReplaceAll(b, []byte("\r"), []byte(" "))
-}
-
-// post sends a request; a missing answer on an async transport is confirmed by one slow re-post before it counts.
-func post(ctx context.Context, c *kit.RawConn, kind kit.Kind, rq gen.Req) (*kit.Exchange, gen.Outcome) {
-	body := sanitize(kind, rq.Body)
-	opts := rq.Opts
-	ex := c.Post(ctx, body, opts)
-	o := gen.Observe(kind, ex)
-	async := kind == kit.Stdio || kind == kit.LSSE
-	if async && (o.Class == "silence" || o.Class == "accepted-202") && rq.Expect.Class != "accepted" && rq.Expect.Class != "anything" && rq.Expect.Class != "httprefuse" {
-		// confirm: same input again, generous wait for any non-fence frame
-		from := c.Log.Len()
-		opts2 := opts
-		opts2.NoWait = true
-		ex2 := c.Post(ctx, body, opts2)
-		if _, ok := c.Log.WaitFor(from, 3*time.Second, func(f kit.Frame) bool {
-			id, has, hm := kit.FrameID(f.Data)
-			return !(has && !hm && strings.HasPrefix(id, `"fence-`))
-		}); ok {
-			time.Sleep(20 * time.Millisecond)
-			for _, f := range c.Log.Since(from) {
-				ex2.Frames = append(ex2.Frames, f.Data)
-			}
-			return ex2, gen.Observe(kind, ex2)
-		}
-	}
-	return ex, o
-}
 
 func kindClass(kind kit.Kind) string { return string(kind) }
 
@@ -72,8 +36,9 @@ func runKind(r *vh.Run, kind kit.Kind, level int) {
 	ids := gen.NewIDGen("c03-"+string(kind), 1000)
 	reqs := gen.Requests(kind, r.Rand("c03-"+string(kind)), ids, level)
 	reqs = append(reqs, gen.HTTPLevel(kind, in, ids)...)
+	sess := gen.NewSession(c, kind)
 	for _, rq := range reqs {
-		ex, o := post(ctx, c, kind, rq)
+		ex, o := sess.Do(ctx, rq)
 		r.Eval(1)
 		r.Count("frames_validated", int64(len(o.Frames)))
 		sym := gen.Judge(rq, o)
